@@ -31,7 +31,6 @@ package c20
 import (
 	"context"
 	"fmt"
-	"strconv"
 	"strings"
 	"time"
 
@@ -93,7 +92,7 @@ func genMixed(t *rapid.T, c *SDKCase) {
 		srcs := []*SDKSrc{&it.Opt, &it.Env, &it.Gen}
 		for i, s := range srcs {
 			s.N = vals[i%len(vals)]
-			s.Raw = strconv.FormatInt(s.N, 10)
+			s.Raw = spellInt(t, s.N)
 		}
 		// {option, variable, both, neither}, independently per setting
 		how := uniform(t, 4, "how")
